@@ -82,6 +82,14 @@ class Objective:
             s, m = self.vtable[key]
         if m is None:
             return self.conv(s)
+        if getattr(self, "alias_metrics", False):
+            # an objective that keeps ONE running info dictionary and hands the same object back on every call: each row must still
+            # record the contents it had when it was returned
+            if not hasattr(self, "_shared"):
+                self._shared = {}
+            self._shared.clear()
+            self._shared.update(m)
+            return (self.conv(s), self._shared)
         return (self.conv(s), dict(m))
 
     def result_at(self, k, key):
